@@ -668,6 +668,74 @@ func report(st *staged, prop string, cfg propCfg, tier string, seed uint64, outs
 
 // ----------------------------------------------------------------- selftest
 
+// selftest determinism <prop> [runs] [processes]: executes the same run
+// indices in many separate processes spread over GOMAXPROCS 1/4/16 and
+// compares the per-run hashes (schedule, steps, virtual time, verdict, faults).
 func selftest(args []string) {
-	die(2, "selftest: use /verif/selftest.sh")
+	if len(args) < 2 || args[0] != "determinism" {
+		die(2, "usage: check selftest determinism <property> [runs] [processes]")
+	}
+	prop := args[1]
+	cfg, ok := props[prop]
+	if !ok || cfg.Engine != "pipesim" {
+		die(2, "determinism self-test applies to pipesim properties")
+	}
+	runs, procs := 64, 30
+	if len(args) > 2 {
+		runs, _ = strconv.Atoi(args[2])
+	}
+	if len(args) > 3 {
+		procs, _ = strconv.Atoi(args[3])
+	}
+	st := stage(cfg.Engine, false)
+	defer st.cleanup()
+	type res struct {
+		hashes []uint64
+		gmp    string
+	}
+	results := make([]res, procs)
+	var wg sync.WaitGroup
+	sem := make(chan struct{}, 8)
+	for i := 0; i < procs; i++ {
+		wg.Add(1)
+		go func(i int) {
+			defer wg.Done()
+			sem <- struct{}{}
+			defer func() { <-sem }()
+			gmp := []string{"1", "4", "16"}[i%3]
+			job := driver.WorkerIn{Prop: prop, Mode: "hashes", Seed: 7, Random: runs, Out: filepath.Join(st.dir, fmt.Sprintf("h-%d.json", i)), ReplayDir: filepath.Join(st.dir, "replays")}
+			b, _ := json.Marshal(job)
+			cmd := exec.Command(st.worker, "-test.run", "^TestWorker$", "-test.timeout", "0")
+			cmd.Env = append(os.Environ(), "VERIF_JOB="+string(b), "GOMAXPROCS="+gmp)
+			if outp, err := cmd.CombinedOutput(); err != nil {
+				fmt.Fprintf(os.Stderr, "process %d failed: %v\n%s\n", i, err, tail(string(outp), 20))
+				return
+			}
+			var wo driver.WorkerOut
+			rb, _ := os.ReadFile(job.Out)
+			json.Unmarshal(rb, &wo)
+			results[i] = res{hashes: wo.RunHashes, gmp: gmp}
+		}(i)
+	}
+	wg.Wait()
+	bad := 0
+	for i := 1; i < procs; i++ {
+		if len(results[i].hashes) != runs || len(results[0].hashes) != runs {
+			fmt.Printf("process %d: %d hashes (expected %d)\n", i, len(results[i].hashes), runs)
+			bad++
+			continue
+		}
+		for k := range results[0].hashes {
+			if results[i].hashes[k] != results[0].hashes[k] {
+				fmt.Printf("MISMATCH run %d: process 0 (GOMAXPROCS=%s) %x vs process %d (GOMAXPROCS=%s) %x\n", k, results[0].gmp, results[0].hashes[k], i, results[i].gmp, results[i].hashes[k])
+				bad++
+				break
+			}
+		}
+	}
+	if bad > 0 {
+		st.cleanup()
+		die(2, "determinism self-test FAILED for %s: %d of %d processes disagree", prop, bad, procs)
+	}
+	fmt.Printf("determinism self-test %s: %d runs x %d processes (GOMAXPROCS 1/4/16) identical\n", prop, runs, procs)
 }
